@@ -76,7 +76,7 @@ def run_gather(sc, seed):
     async def main():
         return await asyncio.gather(*[d(1000 + j) for j in range(k)])
 
-    R, outcome = control.run_controlled(lambda: asyncio.run(main()), control.Script(rng=random.Random(seed)), timeout=60)
+    R, outcome = control.run_controlled(lambda: asyncio.run(main()), control.Script(rng=random.Random(seed)), timeout=25)
     return outcome
 
 
